@@ -11,6 +11,7 @@ import (
 	"github.com/klev-dev/klevdb/pkg/index"
 	"github.com/klev-dev/klevdb/pkg/message"
 	"github.com/klev-dev/klevdb/pkg/segment"
+	"github.com/klev-dev/klevdb/pkg/verifhook"
 )
 
 type writer struct {
@@ -88,6 +89,7 @@ func (w *writer) Publish(msgs []message.Message) (int64, error) {
 		if err != nil {
 			return OffsetInvalid, err
 		}
+		verifhook.Pause("publish.batch.after-record")
 
 		items[i] = w.params.NewItem(msgs[i], position, indexTime)
 		if err := w.items.Write(items[i]); err != nil {
@@ -96,6 +98,7 @@ func (w *writer) Publish(msgs []message.Message) (int64, error) {
 		indexTime = items[i].Timestamp
 	}
 
+	verifhook.Pause("publish.batch.before-visible")
 	return w.index.append(items), nil
 }
 
